@@ -89,14 +89,18 @@ package parser
 //@ spec rangeIs(r, c) = r.Start.Line == c.GetStart().GetLine() - 1 && r.Start.Character == c.GetStart().GetColumn() && r.End.Line == c.GetStop().GetLine() - 1 && r.End.Character == c.GetStop().GetColumn() + srunes(c.GetStop().GetText())
 //@ spec tokRangeIs(r, t) = r.Start.Line == t.GetLine() - 1 && r.Start.Character == t.GetColumn() && r.End.Line == t.GetLine() - 1 && r.End.Character == t.GetColumn() + srunes(t.GetText())
 // an expression node sits at a context / a source node sits at a context (an account source is its expression)
-//@ spec exprAt(e, c) = !absent(e) ==> rangeIs(rangeof(e), c)
-//@ spec srcAt(s, c) = !absent(s) ==> ite(typeis(s, *SourceAccount), exprAt(as(s, *SourceAccount).ValueExpr, c), rangeIs(rangeof(s), c))
-//@ spec sentAt(v, c) = !absent(v) ==> rangeIs(rangeof(v), c)
-//@ spec allotAt(a, c) = !absent(a) ==> rangeIs(rangeof(a), c)
+// the node kind follows the alternative of the grammar (an alternative that was parsed gives its node, not nil)
+//@ spec exprKind(e, c) = (typeis(c, *antlr.AccountLiteralContext) ==> typeis(e, *AccountLiteral)) && (typeis(c, *antlr.AssetLiteralContext) ==> typeis(e, *AssetLiteral)) && (typeis(c, *antlr.VariableExprContext) ==> typeis(e, *Variable)) && (typeis(c, *antlr.StringLiteralContext) ==> typeis(e, *StringLiteral)) && (typeis(c, *antlr.NumberLiteralContext) ==> typeis(e, *NumberLiteral)) && (typeis(c, *antlr.InfixExprContext) ==> typeis(e, *BinaryInfix)) && (c == nil ==> e == nil)
+//@ spec exprAt(e, c) = exprKind(e, c) && (!absent(e) ==> rangeIs(rangeof(e), c))
+//@ spec srcKind(s, c) = (typeis(c, *antlr.SrcAccountContext) ==> typeis(s, *SourceAccount)) && (typeis(c, *antlr.SrcCappedContext) ==> typeis(s, *SourceCapped)) && (typeis(c, *antlr.SrcInorderContext) ==> typeis(s, *SourceInorder)) && (typeis(c, *antlr.SrcAllotmentContext) ==> typeis(s, *SourceAllotment)) && (typeis(c, *antlr.SrcAccountUnboundedOverdraftContext) ==> typeis(s, *SourceOverdraft)) && (typeis(c, *antlr.SrcAccountBoundedOverdraftContext) ==> typeis(s, *SourceOverdraft)) && (c == nil ==> s == nil)
+//@ spec srcAt(s, c) = srcKind(s, c) && (!absent(s) ==> ite(typeis(s, *SourceAccount), exprAt(as(s, *SourceAccount).ValueExpr, c), rangeIs(rangeof(s), c)))
+//@ spec sentAt(v, c) = (typeis(c, *antlr.SentLiteralContext) ==> typeis(v, *SentValueLiteral)) && (typeis(c, *antlr.SentAllContext) ==> typeis(v, *SentValueAll)) && (!absent(v) ==> rangeIs(rangeof(v), c))
+//@ spec allotAt(a, c) = (typeis(c, *antlr.RemainingAllotmentContext) ==> typeis(a, *RemainingAllotment)) && (typeis(c, *antlr.PortionVariableContext) ==> typeis(a, *Variable)) && (!absent(a) ==> rangeIs(rangeof(a), c))
 // kept-or-destination: `kept` has its own range; `to <destination>` is its destination (a node made by the conversion,
 // never one that existed before: the engine has no reachability argument, so this is stated)
-//@ spec kodAt(k, c) = !absent(k) ==> ite(typeis(k, *DestinationKept), typeis(c, *antlr.DestinationKeptContext) && rangeIs(as(k, *DestinationKept).Range, c), typeis(c, *antlr.DestinationToContext) && freshiface(as(k, *DestinationTo).Destination) && destAt(as(k, *DestinationTo).Destination, as(c, *antlr.DestinationToContext).Destination()))
-//@ spec destAt(d, c) = !absent(d) ==> ite(typeis(d, *DestinationAccount), exprAt(as(d, *DestinationAccount).ValueExpr, c), rangeIs(rangeof(d), c))
+//@ spec kodAt(k, c) = (typeis(c, *antlr.DestinationToContext) ==> typeis(k, *DestinationTo)) && (typeis(c, *antlr.DestinationKeptContext) ==> typeis(k, *DestinationKept)) && (c == nil ==> k == nil) && (!absent(k) ==> ite(typeis(k, *DestinationKept), typeis(c, *antlr.DestinationKeptContext) && rangeIs(as(k, *DestinationKept).Range, c), typeis(c, *antlr.DestinationToContext) && freshiface(as(k, *DestinationTo).Destination) && destAt(as(k, *DestinationTo).Destination, as(c, *antlr.DestinationToContext).Destination())))
+//@ spec destKind(d, c) = (typeis(c, *antlr.DestAccountContext) ==> typeis(d, *DestinationAccount)) && (typeis(c, *antlr.DestInorderContext) ==> typeis(d, *DestinationInorder)) && (typeis(c, *antlr.DestAllotmentContext) ==> typeis(d, *DestinationAllotment)) && (c == nil ==> d == nil)
+//@ spec destAt(d, c) = destKind(d, c) && (!absent(d) ==> ite(typeis(d, *DestinationAccount), exprAt(as(d, *DestinationAccount).ValueExpr, c), rangeIs(rangeof(d), c)))
 
 // T3: an alternative that consists of a single child spans exactly that child (same first and last token)
 //@ spec sameSpan(c, d) = c.GetStart() == d.GetStart() && c.GetStop() == d.GetStop()
